@@ -13,8 +13,9 @@ CLAIMED = {
         "index / slice arms of AstLowering::lower_expr (same operator, operands in order) are executed as slices with sub-parsers / recursive lowering summarised by arbitrary results; "
         "(d) statements and control flow: lowering of if/elif/else ladders (source order, own scopes), of `name = value` (binding vs mutation over the whole scope chain), of field/index "
         "assignment, return, while, for, break, continue; emission of if/else, while/loop, blocks; emission of list/tuple/set/dict literals, if/block expressions; and the slot each "
-        "argument of a keyword call is emitted in (parameter order by name) - statement lists, elif lists, scope chains, argument and parameter lists as symbolic sequences of 0..=3 (thorough 0..=5/4).",
-   note="Kernel-only: pattern matching, comprehensions, closures, f-strings, method calls, struct construction, declarations (functions, models, classes, enums, traits), "
+        "argument of a keyword call is emitted in (parameter order by name); lowering and emission of `match` (arms in source order; each arm's own pattern, guard, body); the call-site rewrite of "
+        "validated-newtype constructions - statement lists, elif lists, scope chains, match arms, argument and parameter lists as symbolic sequences of 0..=3 (thorough 0..=5/4).",
+   note="Kernel-only: the patterns themselves (lower_pattern / emit_pattern are atoms), comprehensions, closures, f-strings, method calls, struct-literal emission, declarations (functions, models, classes, enums, traits), "
         "per-argument conversions/borrows and every other lowering/emission path are NOT covered; sub-expressions and sub-statements are atoms in each obligation (nesting is "
         "covered by composition of the per-node obligations, not executed). One known finding: nested operator expressions lose their parentheses "
         "(`(a + b) * c` -> `a + b * c`), recorded in known_findings.json; any other mis-grouping or operand/operator mix-up is still reported.",
@@ -27,8 +28,12 @@ CLAIMED = {
         "index/slice against the same CPython oracle for every i64 / Option<i64> argument on strings mixing 1-4-byte scalars; and the const evaluator's own "
         "binary arm (X-const_binary, E2-X slice of TypeChecker::eval_const_expr): the type it assigns follows the documented numeric table for all operand "
         "types / operators / exponent shapes, and what it folds - and/or of known bools, `in` / `not in` / `+` on known strings - is the logical operation "
-        "resp. the shared core kernel applied to the operands in source order (folded values replayed through the public TypeCheckInfo::const_value).",
-   note="Kernel-only: the rest of the const evaluator (literals, names, unary, collections, cycle detection, the const/frozen kind) and const emission are "
+        "resp. the shared core kernel applied to the operands in source order (folded values replayed through the public TypeCheckInfo::const_value); "
+        "the Index and Slice arms (X-const_index, X-const_slice): the shared kernels str_char_at / str_slice are called on exactly the compile-time values, every written slice bound "
+        "passed as Some(value) and nothing folded when a written bound's value is unknown, the kernel's out-of-range / zero-step errors becoming compile errors; and one step of the "
+        "cycle-detection state machine (X-const_cycle): a const re-entered while in progress is always reported, a not-started const is marked in-progress before its initializer is evaluated.",
+   note="Kernel-only: the rest of the const evaluator (literals, unary, tuples and frozen collections, the const/frozen kind) and const emission / static string folding "
+        "(emit/consts.rs) are "
         "NOT covered; numeric const expressions are not folded by the evaluator at all (value None: the initializer is emitted as Rust), so their run-time "
         "agreement rests on the emission obligations of C01/C07.",
    ref="DESIGN.md section 0.5, C06"),
@@ -75,7 +80,9 @@ CLAIMED = {
    ref="DESIGN.md section 4, C07"),
  "C11": dict(
    cat="model_checking", tech="bounded model checking of the compiled code (Kani/CBMC, symbolic UTF-8 source and span) + SMT-checked inductive step of the parser's token cursor from its MIR (z3, cvc5 cross-check)",
-   text="Solver-based, bounded, TWO mechanisms of the property: (a) the parser's token cursor: from EVERY state with a non-empty buffer ending in Eof (any length up to 2^62) and pos inside it, "
+   text="Solver-based, bounded, THREE mechanisms of the property: (c) the type checker's `base[i]` / `base.field` rule bodies (check_index, check_field) return a type for every receiver type "
+        "(tuples / generic collections with 0..=3 element types), every literal index / parsed field number and every symbol-table answer - no out-of-bounds index, overflow or unwrap "
+        "(X-tc_access_total, E2-X); (a) the parser's token cursor: from EVERY state with a non-empty buffer ending in Eof (any length up to 2^62) and pos inside it, "
         "each cursor helper (peek, peek_next, advance, check*, match_*, expect*, skip_*, synchronize) returns without an out-of-bounds index or arithmetic overflow, never moves backwards and "
         "keeps pos inside the buffer (one inductive step; advance and its unguarded callers under the precondition 'a token was consumed or the current token is not Eof'); (b) terminal rendering of a diagnostic (format_error/get_line_info) cannot panic for any "
         "valid-UTF-8 source of <= 4 bytes (thorough: 6) and any span (inside, empty, reversed, past the end, mid-scalar); the editor range half is C19's span obligation.",
